@@ -704,10 +704,18 @@ PURE_CALLS = {"len", "any", "all", "isinstance", "range", "enumerate", "min", "m
               "np.dtype", "numpy.dtype", "zip", "sorted", "reversed", "type", "slice"}
 
 
+# read-only AND not raising on well-typed receivers (a call that can raise is not moved: its handler may differ at the use site)
+READONLY_METHODS = {"tolist", "astype", "copy", "exists", "is_file", "lower", "upper", "strip", "keys", "values", "items", "get", "find", "count",
+                    "startswith", "endswith", "tobytes", "getvalue"}
+FRESH_METHODS = {"tolist", "astype", "copy", "keys", "values", "items"}
+
+
 def _pure_expr(e):
     """no side effect and no dependence on anything but names and heap reads"""
     for n in ast.walk(e):
         if isinstance(n, ast.Call):
+            if isinstance(n.func, ast.Attribute) and n.func.attr in READONLY_METHODS and not isinstance(n.func.value, ast.Call):
+                continue
             if ast.unparse(n.func) not in PURE_CALLS:
                 return False
         elif isinstance(n, (ast.Await, ast.Yield, ast.YieldFrom, ast.NamedExpr, ast.Lambda)):
@@ -864,7 +872,8 @@ class CopyProp:
             st = stmts[i]
             if isinstance(st, ast.Assign) and len(st.targets) == 1 and isinstance(st.targets[0], ast.Name) \
                     and stores.get(st.targets[0].id) == 1 and st.targets[0].id not in params and _pure_expr(st.value) \
-                    and (not any(isinstance(x, (ast.List, ast.Dict, ast.Set, ast.ListComp, ast.DictComp, ast.SetComp, ast.GeneratorExp)) for x in ast.walk(st.value))
+                    and (not any(isinstance(x, (ast.List, ast.Dict, ast.Set, ast.ListComp, ast.DictComp, ast.SetComp, ast.GeneratorExp))
+                                 or (isinstance(x, ast.Call) and isinstance(x.func, ast.Attribute) and x.func.attr in FRESH_METHODS) for x in ast.walk(st.value))
                          or self.loads.get(st.targets[0].id) == 1 or _in_pure_consumer_only(st.value)) \
                     and not (isinstance(st.value, ast.Constant) and st.value.value is None):
                 name = st.targets[0].id
@@ -1058,10 +1067,40 @@ class Canon(ast.NodeTransformer):
             return ast.copy_location(ast.IfExp(test=copy.deepcopy(E), body=R().visit(node.orelse), orelse=node.body), node)
         return node
 
+    def visit_Call(self, node):
+        self.generic_visit(node)
+        # getattr(x, "name")  ==>  x.name
+        if isinstance(node.func, ast.Name) and node.func.id == "getattr" and len(node.args) == 2 and not node.keywords \
+                and isinstance(node.args[1], ast.Constant) and isinstance(node.args[1].value, str) and node.args[1].value.isidentifier():
+            return ast.copy_location(ast.Attribute(value=node.args[0], attr=node.args[1].value, ctx=ast.Load()), node)
+        # all(E for v in (a, b, c))  ==>  E[a] and E[b] and E[c]        (any -> or)
+        if isinstance(node.func, ast.Name) and node.func.id in ("all", "any") and len(node.args) == 1 and not node.keywords \
+                and isinstance(node.args[0], (ast.GeneratorExp, ast.ListComp)) and len(node.args[0].generators) == 1:
+            g = node.args[0].generators[0]
+            if isinstance(g.iter, (ast.Tuple, ast.List)) and 0 < len(g.iter.elts) <= 8 and not g.ifs and isinstance(g.target, ast.Name):
+                vals = [self.visit(_subst_names(node.args[0].elt, {g.target.id: e})) for e in g.iter.elts]
+                op = ast.And() if node.func.id == "all" else ast.Or()
+                return ast.copy_location(vals[0] if len(vals) == 1 else ast.BoolOp(op=op, values=vals), node)
+        return node
+
     def visit_UnaryOp(self, node):
         self.generic_visit(node)
         # not (a == b)  ==>  a != b   (equality, identity and membership only)
         flip = {ast.Eq: ast.NotEq, ast.NotEq: ast.Eq, ast.Is: ast.IsNot, ast.IsNot: ast.Is, ast.In: ast.NotIn, ast.NotIn: ast.In}
+        # not any(a != b for ...)  ==>  all(a == b for ...)
+        if isinstance(node.op, ast.Not) and isinstance(node.operand, ast.Call) and isinstance(node.operand.func, ast.Name) and node.operand.func.id in ("any", "all") \
+                and len(node.operand.args) == 1 and isinstance(node.operand.args[0], (ast.GeneratorExp, ast.ListComp)):
+            g = node.operand.args[0]
+            e = g.elt
+            ne = None
+            if isinstance(e, ast.Compare) and len(e.ops) == 1 and type(e.ops[0]) in flip:
+                ne = ast.Compare(left=e.left, ops=[flip[type(e.ops[0])]()], comparators=e.comparators)
+            elif isinstance(e, ast.UnaryOp) and isinstance(e.op, ast.Not):
+                ne = e.operand
+            if ne is not None:
+                other = "all" if node.operand.func.id == "any" else "any"
+                g2 = type(g)(elt=ne, generators=g.generators)
+                return ast.copy_location(ast.Call(func=ast.Name(id=other, ctx=ast.Load()), args=[g2], keywords=[]), node)
         if isinstance(node.op, ast.Not) and isinstance(node.operand, ast.Compare) and len(node.operand.ops) == 1 and type(node.operand.ops[0]) in flip:
             c = node.operand
             return ast.copy_location(ast.Compare(left=c.left, ops=[flip[type(c.ops[0])]()], comparators=c.comparators), node)
